@@ -228,10 +228,22 @@ class StmtMixin:
           self.cur_contract.label, ordinal, st.lineno))
     return ordinal, lc
 
-  def _havoc(self, names):
+  def _havoc(self, names, body=()):
+    # names that the loop body only mutates in place (never rebinds) keep their alias origin:
+    # at every iteration they still denote the object they denoted on entry
+    rebound = set()
+    for st in body:
+      for sub in ast.walk(st):
+        if isinstance(sub, ast.Name) and isinstance(sub.ctx, (ast.Store, ast.Del)):
+          rebound.add(sub.id)
     for n in sorted(names):
       if n in self.env:
-        self.env[n] = self.havoc_value(self.env[n], n)
+        old = self.env[n]
+        nv = self.havoc_value(old, n)
+        if (isinstance(old, V) and isinstance(nv, V) and old.origin is not None and old.origin[0] == 'item'
+            and n not in rebound and nv is not old):
+          nv = V(nv.sort, nv.t, origin=old.origin)
+        self.env[n] = nv
 
   def _check_inv(self, lc, kind, ordinal, extra_env):
     saved = dict(self.env)
@@ -308,7 +320,7 @@ class StmtMixin:
     g0[idx_name] = Vl.ival(0)
     self._check_inv(lc, 'inv.init', ordinal, g0)
     which = self.dec.choose(2)
-    self._havoc(mods)
+    self._havoc(mods, [st])
     self._declare_locals(mods)
     i = z3.FreshConst(z3.IntSort(), idx_name)
     gi = dict(ghost)
@@ -383,7 +395,7 @@ class StmtMixin:
     self.loop_entry[ordinal] = self._snap_env()
     self._check_inv(lc, 'inv.init', ordinal, {})
     which = self.dec.choose(2)
-    self._havoc(mods)
+    self._havoc(mods, st.body)
     self._declare_locals(mods)
     self._assume_inv(lc, {})
     c = self.truth(self.eval(st.test))
